@@ -12,6 +12,8 @@ BUILD = os.environ.get("VERIF_BUILD") or os.path.join(VERIF, ".build")  # VERIF_
 SG = os.path.join(BUILD, "sg")
 HB = os.path.join(BUILD, "harness")
 SPEC = os.path.join(VERIF, "spec")
+# mutation / seeded-change experiments (VERIF_BUILD set) must not overwrite the evidence and replays of the real tree
+OUTDIR = BUILD if os.environ.get("VERIF_BUILD") else VERIF
 NCPU = os.cpu_count() or 4
 TLA_CP = "/opt/veriftools/tla/tla2tools.jar:/opt/veriftools/tla/CommunityModules-deps.jar"
 DEFAULT_TLC_WORKERS = int(os.environ.get("VERIF_TLC_WORKERS", "6"))   # several checks may run at once: do not take all cores
@@ -403,10 +405,10 @@ class Ctx:
         ev = {"property_id": self.prop, "tier": self.tier, "seed": self.seed, "level": self.level,
               "coverage": self.cov, "assumptions": self.assumptions, "wall_s": round(time.time() - self.t0, 2),
               "violations": self.violations, "known_findings_seen": self.known}
-        os.makedirs(os.path.join(VERIF, "evidence"), exist_ok=True)
-        tmp = os.path.join(VERIF, "evidence", ".%s.json.%d" % (self.prop, os.getpid()))
+        os.makedirs(os.path.join(OUTDIR, "evidence"), exist_ok=True)
+        tmp = os.path.join(OUTDIR, "evidence", ".%s.json.%d" % (self.prop, os.getpid()))
         json.dump(ev, open(tmp, "w"), indent=1, default=str)
-        os.replace(tmp, os.path.join(VERIF, "evidence", self.prop + ".json"))
+        os.replace(tmp, os.path.join(OUTDIR, "evidence", self.prop + ".json"))
 
     # --- violations
     def violation(self, what, files=None, signature=None, detail=None):
@@ -424,7 +426,7 @@ class Ctx:
                 return False
         self.violations += 1
         h = canon_hash([what, signature, detail])[:12]
-        d = os.path.join(VERIF, "replays", self.prop, h)
+        d = os.path.join(OUTDIR, "replays", self.prop, h)
         os.makedirs(d, exist_ok=True)
         with open(os.path.join(d, "README.txt"), "w") as f:
             f.write("property %s\nwhat: %s\nsignature: %s\nseed=%d tier=%s\n\n%s\n" %
